@@ -38,11 +38,19 @@ def classify(exe, path, timeout=60):
         return "C10|oom", "rss limit exceeded"
     # UBSan (no-recover, with stack)
     m = re.search(r"(\S+?):(\d+):\d+: runtime error: (.*)", err)
-    frame = None
-    for fm in re.finditer(r"#\d+ 0x[0-9a-f]+ in (\S+) (\S+)", err):
-        if "/Source/" in fm.group(2):
-            frame = fm.group(1)
+    # innermost three library frames of the FIRST stack in the report: the call path, not just the faulting helper, identifies the defect
+    # (several distinct defects end in the same bit-reader / range-decoder refill helper)
+    frames = []
+    for ln in err.splitlines():
+        fm = re.search(r"#\d+ 0x[0-9a-f]+ in (\S+) (\S+)", ln)
+        if fm:
+            if "/Source/" in fm.group(2) and (not frames or frames[-1] != fm.group(1)):
+                frames.append(fm.group(1))
+                if len(frames) == 3:
+                    break
+        elif frames and not ln.strip():
             break
+    frame = "<".join(frames) if frames else None
     if m:
         cls = re.sub(r"-?\d+(\.\d+)?(e[+-]?\d+)?", "N", m.group(3))[:70]
         cls = re.sub(r"0x[0-9a-f]+", "ADDR", cls)
